@@ -404,6 +404,7 @@ VARIANTS = [
     brk('B-readonly-id-from-set-size', ['C14', 'C18'], 'R-readonly-id-unique', (TR, "            nodeId = str(self._readonlyNodesCounter)\n", "            nodeId = str(len(self._readonlyNodes))\n"), (TR, "            self._readonlyNodesCounter += 1\n", "")),
     keep('P-py3-range-items', (S, r'\bxrange\(', 'range('), (S, r' in iteritems\(([A-Za-z_.]+)\)', r' in \1.items()'), regex=True),
     brk('B-observer-connect-no-match-index', ['C18'], 'R-observer-bookkeeping', (S, "        self.__raftNextIndex[node] = self.__getCurrentLogIndex() + 1\n        self.__raftMatchIndex[node] = 0\n\n    def __onReadonlyNodeDisconnected", "        self.__raftNextIndex[node] = self.__getCurrentLogIndex() + 1\n\n    def __onReadonlyNodeDisconnected")),
+    brk('B-remove-keeps-connection', ['C10'], 'R-removed-excluded', (S, "            self.__raftMatchIndex.pop(oldNode, None)\n            self.__transport.dropNode(oldNode)", "            self.__raftMatchIndex.pop(oldNode, None)")),
     brk('B-add-member-guard-and', ['C10'], 'R-removed-excluded', (S, "if newNode == self.__selfNode or newNode in self.__otherNodes:", "if newNode == self.__selfNode and newNode in self.__otherNodes:")),
     brk('B-fork-parent-forgets-child', ['C09'], 'R-serializer-idle', (SER, "            if pid != 0:\n                self.__pid = pid\n                return", "            if pid != 0:\n                return")),
     brk('B-apply-drops-kwargs', ['C11'], 'R-cmd-shapes', (S, "            funcID, args, newKwArgs = command\n            kwargs.update(newKwArgs)\n", "            funcID, args, newKwArgs = command\n")),
